@@ -49,6 +49,7 @@ func runC10(c *core.Ctx) {
 	c.Trust("go/types constant evaluation", "engine E1 for header offsets")
 	c.NotDecided("SGIP reading in which a response must echo all three sequence words (the PDU interface exposes one 32-bit identifier; that one is decided)")
 	headerCtorRule(c)
+	bytesCtorRule(c, "C10-CMD")
 
 	byNamed := map[*types.TypeName]*c10type{}
 	var all []*c10type
@@ -1521,5 +1522,90 @@ func headerCtorRule(c *core.Ctx) {
 	}
 	if found == 0 {
 		c.Broken("C10-SEQ", "header#ctor", "no header constructor found")
+	}
+}
+
+// bytesCtorRule: the ready-made packets (New...Bytes, New...Packet: functions of the protocol packages that answer a
+// []byte) are the image of a PDU of the package, produced by that PDU's own IEncode: the octets a caller sends are then
+// the octets the dispatcher maps back to that PDU type, with the length word and any body the type has. A packet put
+// together by hand (a bare header, a shared helper) is not judged by any layout rule and is reported.
+func bytesCtorRule(c *core.Ctx, rule string) {
+	n := 0
+	for _, pkg := range c.Prog.Pkgs {
+		rel := load.Rel(pkg.PkgPath)
+		if rel == "packet" || rel == "" || strings.HasPrefix(rel, "datacoding") || rel == "codec" {
+			continue
+		}
+		for _, name := range pkg.Types.Scope().Names() {
+			tf, ok := pkg.Types.Scope().Lookup(name).(*types.Func)
+			if !ok || !tf.Exported() || !strings.HasPrefix(name, "New") || !(strings.HasSuffix(name, "Bytes") || strings.HasSuffix(name, "Packet")) {
+				continue
+			}
+			sig := tf.Type().(*types.Signature)
+			if sig.Recv() != nil || sig.Results().Len() != 1 || !isByteSliceT(sig.Results().At(0).Type()) {
+				continue
+			}
+			fn := c.Prog.SSAFunc(tf)
+			if fn == nil || len(fn.Blocks) == 0 {
+				continue
+			}
+			n++
+			key := rel + "." + name + "#image"
+			bad := ""
+			for _, b := range fn.Blocks {
+				ret, isRet := b.Instrs[len(b.Instrs)-1].(*ssa.Return)
+				if !isRet {
+					continue
+				}
+				var roots []ssa.Value
+				rootsOf(ret.Results[0], map[ssa.Value]bool{}, &roots)
+				for _, r := range roots {
+					okRoot := false
+					if ex, isE := r.(*ssa.Extract); isE && ex.Index == 0 {
+						if call, isC := ex.Tuple.(*ssa.Call); isC && call.Call.StaticCallee() != nil && call.Call.StaticCallee().Name() == "IEncode" && call.Call.StaticCallee().Signature.Recv() != nil {
+							okRoot = true
+						}
+					}
+					if k, isK := r.(*ssa.Const); isK && k.IsNil() {
+						okRoot = true
+					}
+					// through an unexported helper of the package that itself answers a PDU's IEncode (one level)
+					if hc, isC := r.(*ssa.Call); isC && hc.Call.StaticCallee() != nil && hc.Call.StaticCallee().Pkg == fn.Pkg && hc.Call.StaticCallee().Object() != nil && !hc.Call.StaticCallee().Object().Exported() {
+						h := hc.Call.StaticCallee()
+						all := len(h.Blocks) > 0
+						for _, hb := range h.Blocks {
+							hr, isR := hb.Instrs[len(hb.Instrs)-1].(*ssa.Return)
+							if !isR || len(hr.Results) == 0 {
+								continue
+							}
+							var hroots []ssa.Value
+							rootsOf(hr.Results[0], map[ssa.Value]bool{}, &hroots)
+							for _, x := range hroots {
+								ex, isE := x.(*ssa.Extract)
+								if k, isK := x.(*ssa.Const); isK && k.IsNil() {
+									continue
+								}
+								if !isE || ex.Index != 0 {
+									all = false
+									continue
+								}
+								call, isCall := ex.Tuple.(*ssa.Call)
+								if !isCall || call.Call.StaticCallee() == nil || call.Call.StaticCallee().Name() != "IEncode" {
+									all = false
+								}
+							}
+						}
+						okRoot = all
+					}
+					if !okRoot {
+						bad = "the packet answered at " + c.Prog.Pos(ret.Pos()) + " is not the result of a PDU's IEncode (" + describeValue(r) + "): its length word, its body and its command id are whatever the hand-written code makes them"
+					}
+				}
+			}
+			c.Decide(bad == "", rule, key, c.Prog.Pos(fn.Pos()), "the image of a PDU of the package, by its IEncode", bad)
+		}
+	}
+	if n == 0 {
+		c.Broken(rule, "#image", "no ready-made packet constructor found")
 	}
 }
